@@ -25,6 +25,7 @@ def apply(c):
             open spec fn wf_dec(data: Seq<u8>, p: int, v: &Self, p2: int) -> bool { $w::wf_dec(data, p, &v.0, p2) }
             open spec fn wf_cdec(data: Seq<u8>, p: int, v: &Self, p2: int) -> bool { $w::wf_cdec(data, p, &v.0, p2) }
             open spec fn wf_canon(&self) -> bool { self.0.wf_canon() }
+            open spec fn wf_in_rdata() -> bool { true }
             open spec fn wf_nocomp() -> bool { $w::wf_nocomp() }
             proof fn lemma_rt(&self, pre: Seq<u8>) { self.0.lemma_rt(pre); }
 """)
@@ -87,10 +88,15 @@ def apply(c):
                     else { exists|p3: int| p + 10 <= p3 <= p2 && #[trigger] rdata_dec(d2, p + 10, ty, v, p3) }
                 })
             }
-            /// write_to emits only the RDATA: it decodes, as content of a record of this value's type, to the value
+            /// write_to emits only the RDATA: it decodes to the payload of the variant
             open spec fn wf_cdec(data: Seq<u8>, p: int, v: &Self, p2: int) -> bool {
-                if v is Empty { p2 == p } else if v is OPT { rdata_cdec_opt(data, p, v, p2) } else { rdata_dec(data, p, rdata_type(v), v, p2) }
+                match v {
+                    $( RData::$i(d) => $i::wf_cdec(data, p, d, p2), )+
+                    RData::NULL(_, d) => NULL::wf_cdec(data, p, d, p2),
+                    RData::Empty(_) => p2 == p,
+                }
             }
+            open spec fn wf_in_rdata() -> bool { true }
             open spec fn wf_nocomp() -> bool { false }
             proof fn lemma_rt(&self, pre: Seq<u8>) {
                 match self {
@@ -111,6 +117,17 @@ def apply(c):
         pub open spec fn rdata_cdec_opt(data: Seq<u8>, p: int, v: &RData, p2: int) -> bool {
             match v { RData::OPT(o) => OPT::wf_cdec(data, p, o, p2), _ => false }
         }
+        /// the payload-level decoding of a canonical value is the record-level typed decoding for its own type
+        pub proof fn lemma_cdec_is_dec(v: &RData, data: Seq<u8>, p: int, p2: int)
+            requires RData::wf_cdec(data, p, v, p2), v.wf_canon(), !(v is Empty), !(v is OPT)
+            ensures rdata_dec(data, p, rdata_type(v), v, p2)
+        {
+            match v {
+                $( RData::$i(d) => { assert($i::wf_cdec(data, p, d, p2)); } )+
+                RData::NULL(c, d) => { }
+                RData::Empty(_) => { }
+            }
+        }
         /// ghost: type of the record as denoted by its variant / stored code
         pub open spec fn rdata_type(v: &RData) -> TYPE {
             match v {
@@ -124,6 +141,23 @@ def apply(c):
     c.contract(rel, "impl<'a> RData<'a> {", 'type_code', """
                 ensures r == rdata_type(self), // @C18:type-code-denotes
 """)
+    # ---- Empty arm of RData::write_compressed_to: nothing is written, the window clause is the identity
+    jb_e, be_e = c.body(rel, "impl<'a> WireFormat<'a> for RData<'a> {", 'write_compressed_to')
+    s_e = c.rd(rel)
+    k_e = s_e.find("RData::Empty(_) => { Ok(()) },", jb_e, be_e)
+    if k_e < 0:
+        raise __import__('xf').AnchorLost('%s: Empty arm of RData::write_compressed_to lost' % rel)
+    c.wr(rel, s_e[:k_e] + """RData::Empty(_) => {
+                        proof {
+                            assert forall|wa: int, mp: Seq<u8>| 0 <= wa && wa + 2 <= io_buf(out).len() && #[trigger] agree_out(io_buf(out), mp, wa)
+                                    && refs_ok(name_refs@, mp.subrange(0, io_buf(out).len() as int))
+                                implies refs_ok(name_refs@, mp) && mp.len() == io_buf(out).len() by {
+                                lemma_agree_prefix(io_buf(out), mp, wa, io_buf(out).len() as int);
+                                assert(mp.subrange(0, mp.len() as int) =~= mp);
+                            }
+                        }
+                        Ok(())
+                    },""" + s_e[k_e + len("RData::Empty(_) => { Ok(()) },"):])
     # ---- R7: the 42 `?` of parse_rdata, desugared (Verus' encoding of Try::branch makes the 42-arm function intractable)
     c.sub(rel, "TYPE::$i => RData::$i($i::parse(data, position)?),",
           "TYPE::$i => RData::$i(match $i::parse(data, position) { Ok(vx_v) => vx_v, Err(vx_e) => return Err(vx_e) }),")
